@@ -54,8 +54,41 @@ def handle (toks : List String) : String :=
           | .ok c => ok [encPairs (getAll c)]
           | .error e => ok [encErr e]
         | none => err "bad-op"
+      -- `copyrun [[op…],[after…],[after2…],via,target]`: copy the state after `ops` (`via` = ctor: the copy
+      -- constructor; deep: deepcopy/pickle = the identical state), run `after` on `target` (copy|orig) and THEN
+      -- `after2` on the other object → [pairs of the copy, outputs of after, outputs of after2]
+      | "copyrun" => match a.list? with
+        | some [o, af, af2, .atom via, .atom tgt] =>
+          match o.list? >>= (·.mapM decOp), af.list? >>= (·.mapM decOp), af2.list? >>= (·.mapM decOp) with
+          | some ops, some after, some after2 =>
+            let h := (run empty ops).1
+            match (if via == "deep" then Except.ok h else copy h) with
+            | .error e => ok [encErr e]
+            | .ok c =>
+              let t := if tgt == "copy" then c else h
+              let o := if tgt == "copy" then h else c
+              ok [encPairs (getAll c), .list ((run t after).2.map encOut), .list ((run o after2).2.map encOut)]
+          | _, _, _ => err "bad-op"
+        | _ => err "bad-arg"
+      | "speccopyrun" => match a.list? with
+        | some [o, af, af2, .atom via, .atom tgt] =>
+          match o.list? >>= (·.mapM decOp), af.list? >>= (·.mapM decOp), af2.list? >>= (·.mapM decOp) with
+          | some ops, some after, some after2 =>
+            let m := (Spec.run Spec.empty ops).1
+            let c := if via == "deep" then m else Spec.copy m
+            let t := if tgt == "copy" then c else m
+            let o := if tgt == "copy" then m else c
+            ok [encPairs (Spec.getAll c), .list ((Spec.run t after).2.map encOut), .list ((Spec.run o after2).2.map encOut)]
+          | _, _, _ => err "bad-op"
+        | _ => err "bad-arg"
       | "parse" => match a.cps? with
         | some t => match parse t with
+          | .ok h => ok [encPairs (getAll h)]
+          | .error e => ok [encErr e]
+        | none => err "bad-arg"
+      -- `HTTPHeaders.parse(text, _chars_are_bytes=False)` (multipart/form-data part headers)
+      | "parseU" => match a.cps? with
+        | some t => match parse t false with
           | .ok h => ok [encPairs (getAll h)]
           | .error e => ok [encErr e]
         | none => err "bad-arg"
